@@ -508,6 +508,43 @@ func (ig *ingest) roundRules(e *Effect) {
 				extra = append(extra, "depends on the current view: "+PP(u))
 			}
 		}
+		// ... nor at anything else: the only inputs of the decision are the block's height and the node's height
+		blockFields := map[string]bool{}
+		if pkg := a.P.ByPath[modPath]; pkg != nil {
+			if i := strings.LastIndex(syncMsgType, "."); i >= 0 {
+				if tn, ok := pkg.Types.Scope().Lookup(syncMsgType[i+1:]).(*types.TypeName); ok {
+					if st, ok := tn.Type().Underlying().(*types.Struct); ok {
+						for i := 0; i < st.NumFields(); i++ {
+							if typeShort(st.Field(i).Type()) == "interfaces.Block" {
+								blockFields[st.Field(i).Name()] = true
+							}
+						}
+					}
+				}
+			}
+		}
+		for _, ct := range e.PathConds() {
+			u := unsnap(ct)
+			bad := ""
+			u.Walk(func(x *Term) {
+				switch x.Op {
+				case "call":
+					if x.Name != "blockheight.GetBlockHeight" && x.Name != "interfaces.Height" && !strings.HasPrefix(x.Name, "primitives.") && a.calleeOf(x) == nil {
+						bad = "calls " + x.Name
+					}
+				case "field":
+					if len(x.Args) == 1 && x.Args[0].Op == "this" && x.Key() != k.SHeight.Key() && x.Key() != k.SView.Key() {
+						bad = "reads " + PP(x)
+					}
+					if len(x.Args) == 1 && x.Args[0].Op == "root" && !blockFields[x.Name] {
+						bad = "reads " + PP(x)
+					}
+				}
+			})
+			if bad != "" {
+				extra = append(extra, "depends on something other than the two heights ("+bad+"): "+PP(u))
+			}
+		}
 		extra = dedupSorted(extra)
 		ev.Verdict("U1.exact", props("C14"), "the sync accept test is exactly height(block) >= current height (an equal height is accepted, whatever the current view)", "", len(extra) == 0, "stronger test on the accept path: "+strings.Join(extra, ", "))
 	case e.Kind == "call" && e.Name == "interfaces.RequestNewBlockProposal" && e.Entry == idE4 && pathHas(e, "NewTermInCommittee"):
@@ -903,14 +940,25 @@ func runShutdown(a *Analyzer, r *Results) {
 	{
 		fn := a.P.Func("(*services/termincommittee.TermInCommittee).Dispose")
 		ok := false
+		why := "Dispose does not call ElectionScheduler.Stop in its entry block"
 		if len(fn.Blocks) > 0 {
 			for _, in := range fn.Blocks[0].Instrs {
 				if callReaches(a, in, "interfaces.ElectionScheduler", "Stop") {
 					ok = true
+					break
+				}
+				// consumer code (storage, communication, ...) run before the timer is stopped can panic or block and
+				// leave the timer armed
+				if ci, isCall := in.(ssa.CallInstruction); isCall && !isLoggingCall(ci.Common()) {
+					cc := ci.Common()
+					if cc.IsInvoke() && strings.HasPrefix(typeShort(cc.Value.Type()), "interfaces.") && typeShort(cc.Value.Type()) != "interfaces.ElectionScheduler" {
+						why = "Dispose calls " + typeShort(cc.Value.Type()) + "." + cc.Method.Name() + " (consumer code that may panic or block) before the election timer is stopped"
+						break
+					}
 				}
 			}
 		}
-		r.Check("Z2.dispose", props("C16"), "disposing a term stops the election timer unconditionally", "Dispose", a.P.Pos(fn.Pos()), ok, "Dispose does not call ElectionScheduler.Stop in its entry block", "P")
+		r.Check("Z2.dispose", props("C16"), "disposing a term stops the election timer unconditionally, before any other consumer code runs", "Dispose", a.P.Pos(fn.Pos()), ok, why, "P")
 	}
 	// Z3: the main loop's deferred interrupt is installed before anything else
 	{
